@@ -29,6 +29,8 @@ type c12Recipe struct {
 	NilCont int      `json:"nilCont"`
 	Budget  int      `json:"budget"`
 	Special bool     `json:"special"`
+	Share   int      `json:"share,omitempty"`    // percent of pointer positions reusing an earlier pointer
+	UnregAny int     `json:"unregAny,omitempty"` // percent of any positions holding an unregistered defined basic type
 	Path    []string `json:"path,omitempty"`
 	Witness string   `json:"witness,omitempty"` // fixed corpus value instead of a generated one
 	Mutate  string   `json:"mutate,omitempty"`  // malformed stream: mutation applied to the encoder output
@@ -54,6 +56,9 @@ type c12Model struct {
 	V         json.RawMessage `json:"v,omitempty"`
 	Ty        string          `json:"ty,omitempty"`
 	Sim       bool            `json:"sim"`
+	Regd      bool            `json:"regd"`
+	Coherent  bool            `json:"coherent"`
+	Shared    int             `json:"shared"`
 	SameType  bool            `json:"sameType"`
 }
 
@@ -455,6 +460,34 @@ func c12WitnessValue(name string) (any, bool) {
 		return c12Any{X: &m, L: []any{&[]int{3}}}, true
 	case "empty-struct-ptr":
 		return &c12Empty{}, true
+	case "shared-slice": // one pointer at two positions of a slice
+		return []*int{pone, pone}, true
+	case "shared-state": // a state whose Last is an element of History, also held in any positions
+		a, b := &c12Leaf{S: "user"}, &c12Leaf{S: "assistant"}
+		pp := &b
+		return c12Hist{History: []*c12Leaf{a, b}, Last: b, Extra: map[string]any{"last": b}, Boxed: b, PP1: pp, PP2: &b,
+			Ints: []*int{pone}, I1: pone, I2: pone, ByName: map[string]*c12Leaf{"a": a, "b": a}, Any: []any{pone, "x", pone}}, true
+	case "shared-fanout": // what a checkpoint holds when one node output is the pending input of two successors
+		d := &c12Leaf{S: "doc"}
+		return map[string]any{"a": d, "b": d}, true
+	case "struct-keys": // every key text omits a different set of fields
+		return map[c12Key]string{{Tenant: "a"}: "tenant-a", {Shard: 1}: "shard-1", {}: "zero", {Tenant: "b", On: true, U: 7}: "b"}, true
+	case "struct-keys-nested":
+		return c12MKs{K2: map[c12Key2]*int{{A: 1, In: c12KeyIn{X: 3}}: pone, {In: c12KeyIn{Y: "y"}, B: true}: nil, {S: "s"}: pone},
+			KK: map[c12KeyIn]c12Key{{X: 1}: {Tenant: "t"}, {Y: "y"}: {Shard: 2}}}, true
+	case "ptr-keys":
+		two := 2
+		return map[*int]string{pone: "one", &two: "two", nil: "nil"}, true
+	case "ptr-struct-keys":
+		return map[*c12Key]int{{Tenant: "a"}: 1, {Shard: 1}: 2}, true
+	case "unreg-named": // an unregistered defined basic type: must be refused
+		return c12UStr("weather"), true
+	case "unreg-named-any": // … in the positions a checkpoint holds values in
+		return c12Any{X: c12UInt(3), L: []any{1, c12UF(0.5)}, M: map[string]any{"node": c12UStr("weather")}, P: &c12Any{Y: c12UBool(true)}}, true
+	case "unreg-named-ptr":
+		u := c12UStr("t")
+		pu := &u
+		return &pu, true
 	case "any-key": // map with any-typed keys: outside the model (dynamic type of the key changes)
 		return map[any]int{1: 1}, true
 	case "ptr-to-any":
@@ -465,7 +498,9 @@ func c12WitnessValue(name string) (any, bool) {
 }
 
 var c12Witnesses = []string{"ptr-to-map", "ptr-to-slice-field", "inner-nil", "outer-nil-deep", "nil-above-nil", "ptr3",
-	"nilptr-to-slice", "nilptr-to-map", "nested-container", "ptr-any-field", "empty-struct-ptr"}
+	"nilptr-to-slice", "nilptr-to-map", "nested-container", "ptr-any-field", "empty-struct-ptr",
+	"shared-slice", "shared-state", "shared-fanout", "struct-keys", "struct-keys-nested", "ptr-keys", "ptr-struct-keys",
+	"unreg-named", "unreg-named-any", "unreg-named-ptr"}
 
 func c12ValueOf(rc *c12Recipe) (reflect.Value, error) {
 	var v reflect.Value
@@ -479,7 +514,8 @@ func c12ValueOf(rc *c12Recipe) (reflect.Value, error) {
 		if rc.TypeIdx < 0 || rc.TypeIdx >= len(c12Menu) {
 			return v, fmt.Errorf("bad type index %d", rc.TypeIdx)
 		}
-		g := &c12Gen{r: vh.NewRand(rc.Seed), nilPtr: rc.NilPtr, nilCont: rc.NilCont, budget: rc.Budget, special: rc.Special}
+		g := &c12Gen{r: vh.NewRand(rc.Seed), nilPtr: rc.NilPtr, nilCont: rc.NilCont, budget: rc.Budget, special: rc.Special,
+			share: rc.Share, unregAny: rc.UnregAny}
 		v = g.gen(c12Menu[rc.TypeIdx], 0)
 	}
 	if len(rc.Path) > 0 {
@@ -562,6 +598,25 @@ func c12Compare(ctx *vh.Ctx, c *c12Case, v reflect.Value, st *c12Stats, impl *c1
 	}
 	if st.nilPtrToContainer > 0 {
 		res.Dist("has:nilptr-to-container")
+	}
+	if st.sharedOcc > 0 {
+		res.Dist("has:shared-pointer")
+		res.Dist("sharedOccurrences=" + c12Bucket(st.sharedOcc))
+		if model.Shared == 0 || !model.Coherent {
+			res.Disagree(vh.Disagreement{Signature: "C12:oracle-inconsistent:sharing", What: "the value has a pointer at two positions but the labelled tree sent to the model is not a coherent sharing", Case: c, Model: model})
+		}
+	}
+	if st.structKeys > 0 {
+		res.Dist("has:struct-key-entries=" + c12Bucket(st.structKeys))
+	}
+	if st.ptrKeys > 0 {
+		res.Dist("has:pointer-key-entries=" + c12Bucket(st.ptrKeys))
+	}
+	if st.unregNamed > 0 {
+		res.Dist("has:unregistered-named-basic")
+		if model.Regd {
+			res.Disagree(vh.Disagreement{Signature: "C12:oracle-inconsistent:regd", What: "the value holds a leaf of an unregistered defined type but the model calls every type registered", Case: c, Model: model})
+		}
 	}
 	key := fmt.Sprintf("%s/%d/%d/%d/%d/%d/%d/%s/%s", v.Type(), st.nodes, st.maxPtr, st.nilPtrs, st.nilInChain, st.ifaceVals, st.ptrToContainer, impl.Enc, impl.Dec)
 	res.Count(key, st.nodes >= 3 && impl.Enc == "ok")
@@ -790,7 +845,7 @@ func c12RunBatch(ctx *vh.Ctx, recipes []c12Recipe) error {
 }
 
 func runC12(ctx *vh.Ctx) error {
-	ctx.Res.Rule = "type-directed random values over a menu of registered Go types (structs with pointer depth 0-3, slices, maps with every registered key kind, any-typed fields/elements, named basics, recursive structs, eino's schema.Message) incl. nil at every pointer level and edge numbers/strings; non-trivial = at least 3 value nodes and Marshal succeeded; distinct by (Go type, node count, pointer depth, nil pointers, nil-in-chain, any-held values, pointers to containers, outcome classes)"
+	ctx.Res.Rule = "type-directed random values over a menu of registered Go types (structs with pointer depth 0-3, slices, maps with every registered key kind incl. struct keys whose entries differ in which fields are zero and pointer keys, any-typed fields/elements, named basics, recursive structs, eino's schema.Message) incl. nil at every pointer level, edge numbers/strings, shared (acyclic) pointers and unregistered defined basic types at every position; non-trivial = at least 3 value nodes and Marshal succeeded; distinct by (Go type, node count, pointer depth, nil pointers, nil-in-chain, any-held values, pointers to containers, outcome classes)"
 	if c12RegErr != nil {
 		return fmt.Errorf("menu registration failed: %v", c12RegErr)
 	}
@@ -833,16 +888,19 @@ func runC12(ctx *vh.Ctx) error {
 	bb := ctx.N(200, 3000)
 	for i := 0; i < bb && ctx.TimeLeft(); i++ {
 		c12BlackBox(ctx, &c12BBCase{Mode: "blackbox", StateTy: ctx.Rng.Intn(len(c12BBTypes)), Seed: ctx.Rng.U64(),
-			NilPtr: []int{5, 25, 50}[ctx.Rng.Intn(3)], Budget: []int{12, 40, 120}[ctx.Rng.Intn(3)]})
+			NilPtr: []int{5, 25, 50}[ctx.Rng.Intn(3)], Budget: []int{12, 40, 120}[ctx.Rng.Intn(3)],
+			Share: []int{0, 30, 60}[ctx.Rng.Intn(3)], UnregAny: []int{0, 0, 0, 10}[ctx.Rng.Intn(4)],
+			Alias: ctx.Rng.Chance(15), Fan: []int{0, 0, 2, 3}[ctx.Rng.Intn(4)], AllPred: ctx.Rng.Bool()})
 	}
-	n := ctx.N(16000, 150000)
+	n := ctx.N(20000, 150000)
 	const batch = 400
 	for done := 0; done < n && ctx.TimeLeft(); done += batch {
 		var rs []c12Recipe
 		for i := 0; i < batch && done+i < n; i++ {
 			rc := c12Recipe{TypeIdx: ctx.Rng.Intn(len(c12Menu)), Seed: ctx.Rng.U64(),
 				NilPtr: []int{5, 25, 50}[ctx.Rng.Intn(3)], NilCont: []int{0, 0, 0, 0, 2, 30}[ctx.Rng.Intn(6)],
-				Budget: []int{12, 40, 120, 300}[ctx.Rng.Intn(4)], Special: ctx.Rng.Chance(5)}
+				Budget: []int{12, 40, 120, 300}[ctx.Rng.Intn(4)], Special: ctx.Rng.Chance(5),
+				Share: []int{0, 0, 25, 60}[ctx.Rng.Intn(4)], UnregAny: []int{0, 0, 0, 0, 3, 12}[ctx.Rng.Intn(6)]}
 			rs = append(rs, rc)
 		}
 		if err := c12RunBatch(ctx, rs); err != nil {
@@ -863,7 +921,7 @@ func runC12(ctx *vh.Ctx) error {
 	m := ctx.N(300, 4000)
 	for i := 0; i < m && ctx.TimeLeft(); i++ {
 		rc := c12Recipe{TypeIdx: ctx.Rng.Intn(len(c12Menu)), Seed: ctx.Rng.U64(), NilPtr: 25, Budget: 30,
-			Mutate: c12Mutations[ctx.Rng.Intn(len(c12Mutations))]}
+			Mutate: c12Mutations[ctx.Rng.Intn(len(c12Mutations))], Share: []int{0, 40}[ctx.Rng.Intn(2)]}
 		if err := c12Malformed(ctx, rc); err != nil {
 			return err
 		}
